@@ -14,6 +14,7 @@ META = {
                   "behaviour and the replay / trace validation reports the deviation.",
     "design_ref": "5.3 C14",
 }
+META["level_text"] += _driver.SYSTEM_LEVEL_TEXT
 
 
 def run(ctx):
